@@ -22,6 +22,7 @@ TWIN_OF = {   # function under contract -> twin harness name (native) / kani har
     'ChoiceHelper::choice': ('ChoiceHelper::choice', 'twin_choice_helper'),
     'ChoiceHelper::end': ('ChoiceHelper::choice', 'twin_choice_helper'),
     'ChoiceHelper::new': ('ChoiceHelper::choice', 'twin_choice_helper'),
+    'ParseState::new': ('ParseState::new', None),                                        # native only (no symbolic input needed beyond the alphabet)
     'ParseState::first_n_chars': ('ParseState::first_n_chars', None),                   # Kani: no verdict within 40 min
     'CacheEntries': ('CacheEntries', None),                                             # Kani: hashbrown internals, no verdict within 40 min
     'IndentedTracer': ('IndentedTracer', None),
